@@ -42,6 +42,8 @@ type Scenario struct {
 	Vanish      bool // a consumer stops reading mid-stream: the daemon's write to it fails (C01)
 	Starve      bool // one channel has a timeout on every scan tick while it also holds deferred messages (C04 "soon after")
 	RdyZero     bool // an idle consumer lowers RDY / CLS / its channel is paused, long before the next publish (C03)
+	Lonely      bool // an extra topic without any channel until the drain (C13: it is reported all the same)
+	Lookupd     int  // 0: none configured; 1: an nsqlookupd that stays up; 2: one that nsqd connected to and that is gone by the time the topics are created
 }
 
 func (s Scenario) String() string {
@@ -57,6 +59,12 @@ func (s Scenario) String() string {
 	}
 	if s.OutBufSize != 0 || s.OutBufTmo != 0 {
 		feat += fmt.Sprintf(" outbuf=%d/%dms", s.OutBufSize, s.OutBufTmo)
+	}
+	if s.Lonely {
+		feat += " lonely-topic"
+	}
+	if s.Lookupd != 0 {
+		feat += []string{"", " lookupd", " lookupd-gone"}[s.Lookupd]
 	}
 	return fmt.Sprintf("mode=%s seed=%d memq=%d maxbytes=%d msgtmo=%s topics=%v chans=%v cons=%d pubs=%dx%d%s",
 		s.Mode, s.Seed, s.MemQ, s.MaxBytes, s.MsgTimeout, s.Topics, s.Channels, s.ConsPerChan, s.NPub, s.NMsg, feat)
@@ -89,6 +97,11 @@ func genScenario(mode string, seed int64) Scenario {
 	}
 	if mode == "flow" {
 		s.RdyZero = true
+	}
+	if mode == "core" || mode == "churn" || mode == "flow" {
+		// independent stream: the other choices for a given seed stay what they were
+		s.Lookupd = []int{0, 0, 1, 2}[rand.New(rand.NewSource(seed*104729+11)).Intn(4)]
+		s.Lonely = mode == "core" && rand.New(rand.NewSource(seed*15485863+5)).Intn(2) == 0
 	}
 	switch mode {
 	case "contend":
